@@ -302,7 +302,7 @@ def stream_real(c, n, oracle, compare, model_line):
             c.fail("inner optimize() called with pre/post-processing enabled", case)
         if r["ret"]:
             res = residual_at_theta_one(p, kw)
-            if not res <= 1e-6:
+            if not res <= 1e-4:
                 c.fail("successful run, but the exposed results do not satisfy the theta = 1 dynamics "
                        "(max residual %.3g)" % res, case)
         if outs is not None:
